@@ -201,6 +201,7 @@ type fileOpts struct {
 var importMap = map[string]string{
 	"sync":                           VrtPath + "/vsync",
 	"sync/atomic":                    VrtPath + "/vatomic",
+	"context":                        VrtPath + "/vctx",
 	"golang.org/x/sync/errgroup":     VrtPath + "/xsync/errgroup",
 	"golang.org/x/sync/semaphore":    VrtPath + "/xsync/semaphore",
 	"golang.org/x/sync/singleflight": VrtPath + "/xsync/singleflight",
